@@ -1319,6 +1319,10 @@ def container_call(eng, st, target, name, args, kwargs, node=None):
             yield st, Str.fresh(name)       # text assembled from symbolic pieces: an arbitrary string
             return
         raise Unsupported(f"method {name} of concrete {type(c).__name__} with symbolic args")
+    if isinstance(c, SRef) and name in c.t.methods:
+        # an opaque container under contract (subscript store / load dispatch to its declared methods)
+        yield from eng.call(st, __import__("pyvc.engine", fromlist=["SymMethod"]).SymMethod(c, name), list(args), dict(kwargs), node)
+        return
     raise Unsupported(f"method {name} on {c!r}")
 
 
